@@ -906,6 +906,7 @@ func main() {
 		scenarioHeartbeatRate(rng)
 		scenarioLateNext(rng)
 		scenarioOptions()
+		scenarioDefaults()
 	}
 	if only == "d8" {
 		scenarioD8(rng)
